@@ -200,7 +200,12 @@ func (e *Exec) load(p Ptr) Value {
 	}
 	if len(arr.e) > 0 {
 		if _, scalar := arr.e[0].(*Term); !scalar {
-			// elements are aggregates / pointers / interfaces: fork over the feasible indices
+			// elements are aggregates / pointers / interfaces: fork over the feasible indices.
+			// A table of pointers (few distinct targets, many indices - e.g. one pre-allocated
+			// object per enum value) is forked per distinct target, not per index.
+			if v, ok := e.loadPtrTable(arr, p.idx); ok {
+				return v
+			}
 			k := e.concretize(p.idx, "index of non-scalar element")
 			if k >= uint64(len(arr.e)) {
 				panic(mkEnd("engine", "load beyond backing array"))
@@ -221,6 +226,54 @@ func (e *Exec) load(p Ptr) Value {
 		}
 	}
 	return r
+}
+
+// loadPtrTable: arr holds plain pointers (to whole objects, or nil); the index is symbolic. The
+// indices are grouped by target and the path forks once per group.
+func (e *Exec) loadPtrTable(arr *ArrayV, idx *Term) (Value, bool) {
+	if len(arr.e) < 32 {
+		return nil, false
+	}
+	type group struct {
+		v    Ptr
+		idxs []int
+	}
+	var groups []*group
+	byObj := map[*Object]*group{}
+	for i, el := range arr.e {
+		q, ok := el.(Ptr)
+		if !ok || len(q.path) != 0 || q.idx != nil {
+			return nil, false
+		}
+		g := byObj[q.obj]
+		if g == nil {
+			g = &group{v: q}
+			byObj[q.obj] = g
+			groups = append(groups, g)
+		}
+		g.idxs = append(g.idxs, i)
+	}
+	if len(groups) > 24 {
+		return nil, false
+	}
+	for gi, g := range groups {
+		if gi == len(groups)-1 {
+			return g.v, true
+		}
+		var cond *Term
+		for _, i := range g.idxs {
+			c := e.tt.Eq(idx, e.tt.Const(idx.w, uint64(i)))
+			if cond == nil {
+				cond = c
+			} else {
+				cond = e.tt.Or(cond, c)
+			}
+		}
+		if e.branch(cond) {
+			return g.v, true
+		}
+	}
+	return nil, false
 }
 
 func (e *Exec) store(p Ptr, v Value) {
